@@ -14,13 +14,22 @@ def main(tier, args):
     hf = [vf.BUILD + "/C16/hashes_%d.bin" % i for i in range(NPARTS)]
     parts = range(NPARTS) if not args.only else [int(args.only)]
     jobs = [("p%d" % i, [exe, str(i), str(NPARTS), str(cap), str(depth), str(nest), hf[i]]) for i in parts]
-    # second definition order: the user-defined terminal state is created after the routes that target it
-    NL = 8; hl = [vf.BUILD + "/C16/hashes_late_%d.bin" % i for i in range(NL)]
+    # lanes: (tag, environment, share of the machine cap, processes, max nesting depth, machine filter)
+    k = 1 if tier == "quick" else 2     # thorough: the new lanes get half their quick share (their machines are small; depth 7 is what costs)
+    lanes = [("late", {"C16_TERM_LATE": "1"}, 2, 8, nest, None),          # terminal state 0 and setInitState issued after states/routes/handlers
+             ("badh", {"C16_BAD_HANDLER": "1"}, 4, 4, nest, None),         # declining handlers return an id that names no state
+             ("null1", {"C16_NULLS": "1"}, 8 * k, 2, nest, None),              # half of the enter/exit/route actions nullptr, outermost machine without state-changed callback
+             ("null2", {"C16_NULLS": "2"}, 8 * k, 2, nest, None),              # the complementary half
+             ("null3", {"C16_NULLS": "3"}, 16 * k, 1, nest, None),             # no enter/exit/route action, no callback at all
+             ("twoph", {"C16_TWO_PHASE": "1"}, 8 * k, 2, nest, None),          # states; start();stop() on every machine; rest of the definition
+             ("enum2h", {"C16_ENUM": "1", "C16_TWO_HANDLERS": "1"}, 8 * k, 2, nest, None)]   # templated enum overloads; two specific handlers per state
+    if nest < 3:
+        lanes.append(("deep", {}, 5, 4, 3, "deep"))                          # nesting depth 3 only (double hand-back: grandchild and child terminate on one event)
     if not args.only:
-        jobs += [("late%d" % i, [exe, str(i), str(NL), str(cap // 2), str(depth), str(nest), hl[i]], {"C16_TERM_LATE": "1"}) for i in range(NL)]
-        hb = [vf.BUILD + "/C16/hashes_badh_%d.bin" % i for i in range(4)]
-        jobs += [("badh%d" % i, [exe, str(i), "4", str(cap // 4), str(depth), str(nest), hb[i]], {"C16_BAD_HANDLER": "1"}) for i in range(4)]
-        hf = hf + hl + hb
+        for tag, env, share, np_, nd, flt in lanes:
+            hl = [vf.BUILD + "/C16/hashes_%s_%d.bin" % (tag, i) for i in range(np_)]
+            jobs += [("%s%d" % (tag, i), [exe, str(i), str(np_), str(cap // share), str(depth), str(nd), hl[i]] + ([flt] if flt else []), env) for i in range(np_)]
+            hf = hf + hl
     vf.run_procs(res, jobs, env={"VERIF_DEADLINE_S": str(dl)}, log=log, jobs=24)
     vf.run_procs(res, [("merge", [exe, "merge"] + hf)], log=log)
     for f in hf:
@@ -35,21 +44,36 @@ def main(tier, args):
     res.viols = [v for l in best.values() for v in l]
     st = res.stats
     vf.finish(PID, tier, res, t0,
-              rule="PROGRAMS (plus a lane on a quarter of the cap in which declining handlers return an id that names no state: the event must be dropped and the machine stay usable; each in two definition orders: terminal state created before / after the routes that target it; the second order on half the cap): every canonical StateMachine definition in order of weight (<=3 states + optional user-defined terminal state, events {1,2} + any, "
+              rule="PROGRAMS: every canonical StateMachine definition in order of weight (<=3 states + optional user-defined terminal state, events {1,2} + any, "
                    "<=3 routes/state over (event|any, target incl. terminal, guard none/true/false/flip-flop), per-state handlers for a specific event and for any event "
-                   "returning -1 or an existing target, a sub-machine per state, nesting depth <=%d, optional setInitState; weight = states+routes+guards+handlers+flags+sub-machines; "
-                   "canonical = all states reachable, numbered in discovery order, first specific event is 1), first %d machines (see caps_hit for the weight reached); "
+                   "returning -1 or an existing target, a sub-machine per state, nesting depth <=%d, optional setInitState(1) with states registered in descending order, plus the one-state machines "
+                   "whose initial state does not exist (setInitState(7); setInitState(0) without a state 0: start() must fail, as top machine and as sub-machine); "
+                   "weight = states+routes+guards+handlers+flags+sub-machines; canonical = all states reachable, numbered in discovery order, first specific event is 1), first %d machines "
+                   "(see caps_hit for the weight reached). LANES on a share of that cap (same enumeration; shares of the quick tier, the thorough tier halves those below 1/4): 1/2 terminal state and setInitState issued after the routes that refer to them; "
+                   "1/4 declining handlers return an id that names no state (event dropped, machine stays usable); 1/8+1/8+1/16 enter/exit/route actions nullptr and state-changed callback not set "
+                   "(two complementary halves by parity, then all of them); 1/8 two-phase definition (states, start();stop() on every machine, then terminal state, routes, handlers, sub-machines, "
+                   "setInitState, callback); 1/8 every definition call, run() and observer through the templated enum overloads, and every state with a specific handler has a second, declining handler for "
+                   "the other event; quick tier only: 1/5 restricted to machines of nesting depth 3 (thorough has depth 3 everywhere). Every run() carries a payload pointer (Event::extra) and every "
+                   "trace token records whether it arrived. "
                    "HISTORIES: per machine BFS over call sequences of {start,run(1),run(2),stop,restart} x {plain, every action of a machine calls start/run(1)/run(2)/stop/restart on its own machine} "
+                   "+ {start,run(1),run(2),stop} x {every action calls newState/addRoute/addEvent/setSubStateMachine with valid arguments on its own machine} + the op 'definition calls the reference "
+                   "rejects in any phase' (duplicate newState, unknown from/to state, route/handler/sub-machine on a never-created state 0) on every machine of the hierarchy (35 ops), "
                    "to depth %d, deduplicated on the observers of every machine of the hierarchy + guard parity + enter/exit ledger (states = distinct (machine, state) pairs; "
-                   "transitions = evaluated call sequences, each replayed on a fresh real hierarchy); ORACLE: reference interpreter written from state_machine.h + property statement "
-                   "(+ pinned tests), compared step by step (guard/handler/exit/route/enter/state-changed trace incl. event id and current/last/next/isRunning/isTerminated inside every action, "
-                   "return value, observers of all machines after every call); enter/exit ledger balanced whenever the outermost machine is stopped; re-entrant calls rejected with "
-                   "state unchanged; ASan+UBSan; distinct_nontrivial = distinct (trace+return value+observer) sequences (64-bit hashes, union over processes)" % (nest, cap, depth),
-              assumptions=["handlers return -1 or an existing state id (other negative values are undocumented, DESIGN 1.7)",
+                   "transitions = evaluated call sequences, each replayed on a fresh real hierarchy; the must-fail definition calls are also issued once after every build; every evaluated sequence, "
+                   "deduplicated or not, is followed by the epilogue restart; stop under all oracles). ORACLE: reference interpreter written from state_machine.h + property statement "
+                   "(+ pinned tests), compared step by step (guard/handler/exit/route/enter/state-changed trace incl. event id, payload and current/last/next/isRunning/isTerminated inside every action, "
+                   "return value, observers of all machines after every call); enter/exit ledger balanced whenever the outermost machine is stopped (hence at the end of every sequence); re-entrant calls "
+                   "(life-cycle and definition) rejected with state unchanged; definition calls the reference rejects return false and run no callback; ASan+UBSan; "
+                   "distinct_nontrivial = distinct (trace+return value+observer) sequences (64-bit hashes, union over processes)" % (nest, cap, depth),
+              assumptions=["handlers return -1 or an existing state id (other negative values are undocumented, DESIGN 1.7); the lane with an id that names no state expects the event to be dropped",
                            "re-entrant calls are made on the machine whose action is running, not on its parent or child (DESIGN 1.7)",
-                           "the user-defined terminal state has enter/exit actions only (no routes, handlers or sub-machine); setInitState(0) is not generated",
+                           "the user-defined terminal state has enter/exit actions only (no routes, handlers or sub-machine); setInitState(0) is generated only when state 0 was never created",
+                           "a state exists when newState() created it: a state 0 that was never created is a legal route target / handler result but cannot carry routes, handlers or a sub-machine (state_machine.h: addRoute fails when the state does not exist)",
+                           "definition calls with valid arguments are demanded to fail only when made from inside an action of the machine (the statement); between calls on a running machine only the always-invalid ones are issued; "
+                           "setInitState/setStateChangedCallback from inside actions, addEvent with a null handler and a second addEvent for the same (state,event) are not issued (header silent)",
                            "lastState() is taken to survive stop()/start() as in the code (header silent); stop order inner-first as pinned for terminated sub-machines (SubSMActionOrder)",
                            "event ids 1 and 2 are interchangeable (definitions whose first specific event is 2 are skipped as mirror images)",
+                           "the enter/exit ledger counts states that have both actions (all states outside the null-action lanes)",
                            "distinct traces are counted through a 64-bit FNV-1a hash"],
               extra={"distinct_nontrivial": st.get("distinct_traces", 0), "distinct_traces": st.get("distinct_traces", 0),
                      "programs": st.get("machines", 0)})
